@@ -14,13 +14,67 @@
 #define ASAN_UNPOISON_MEMORY_REGION(a, s) ((void)(a), (void)(s))
 #endif
 
-// ---- atomics of Atomic.hpp become calls into the scheduler (function-like macros over the builtins)
-static long nvAtomicAdd(volatile void* p, long delta, int width);
-template<typename T, typename V> static inline T nv_sync_add_and_fetch(volatile T* p, V v)
+// ---- atomics of Atomic.hpp become calls into the scheduler: function-like macros over the WHOLE family of
+// builtins the header could use, so that every spelling of "increment" / "decrement and test" is the
+// same observed step (`inc` / `dec` with the resulting value).  Exactly one thread runs at a time (baton),
+// so the operation itself is a plain read-modify-write here.
+enum { NV_ADD, NV_SUB, NV_OR, NV_AND, NV_XOR, NV_NAND, NV_XCHG };
+static unsigned long long nvRmw(volatile void* p, int width, int op, unsigned long long operand, bool returnOld);
+static unsigned long long nvCas(volatile void* p, int width, unsigned long long expected, unsigned long long desired, bool* ok);
+template<typename T> struct NvVal { static unsigned long long u(T v) { return (unsigned long long)v; } };
+template<typename T> struct NvVal<T*> { static unsigned long long u(T* v) { return (unsigned long long)(unsigned long)v; } };
+template<typename T> struct NvRet { static T of(unsigned long long v) { return (T)v; } };
+template<typename T> struct NvRet<T*> { static T* of(unsigned long long v) { return (T*)(unsigned long)v; } };
+template<typename T, typename V> static inline T nv_rmw(volatile T* p, int op, V v, bool returnOld)
 {
-  return (T)nvAtomicAdd((volatile void*)p, (long)v, (int)sizeof(T));
+  return NvRet<T>::of(nvRmw((volatile void*)p, (int)sizeof(T), op, NvVal<T>::u((T)v), returnOld));
 }
-#define __sync_add_and_fetch(p, v) nv_sync_add_and_fetch(p, v)
+template<typename T, typename O, typename N> static inline T nv_val_cas(volatile T* p, O o, N n)
+{
+  bool ok;
+  return NvRet<T>::of(nvCas((volatile void*)p, (int)sizeof(T), NvVal<T>::u((T)o), NvVal<T>::u((T)n), &ok));
+}
+template<typename T, typename O, typename N> static inline bool nv_bool_cas(volatile T* p, O o, N n)
+{
+  bool ok;
+  nvCas((volatile void*)p, (int)sizeof(T), NvVal<T>::u((T)o), NvVal<T>::u((T)n), &ok);
+  return ok;
+}
+template<typename T> static inline bool nv_atomic_cas(volatile T* p, T* expected, T desired)
+{
+  bool ok;
+  T old = NvRet<T>::of(nvCas((volatile void*)p, (int)sizeof(T), NvVal<T>::u(*expected), NvVal<T>::u(desired), &ok));
+  if(!ok) *expected = old;
+  return ok;
+}
+#define __sync_add_and_fetch(p, v) nv_rmw(p, NV_ADD, v, false)
+#define __sync_sub_and_fetch(p, v) nv_rmw(p, NV_SUB, v, false)
+#define __sync_or_and_fetch(p, v) nv_rmw(p, NV_OR, v, false)
+#define __sync_and_and_fetch(p, v) nv_rmw(p, NV_AND, v, false)
+#define __sync_xor_and_fetch(p, v) nv_rmw(p, NV_XOR, v, false)
+#define __sync_nand_and_fetch(p, v) nv_rmw(p, NV_NAND, v, false)
+#define __sync_fetch_and_add(p, v) nv_rmw(p, NV_ADD, v, true)
+#define __sync_fetch_and_sub(p, v) nv_rmw(p, NV_SUB, v, true)
+#define __sync_fetch_and_or(p, v) nv_rmw(p, NV_OR, v, true)
+#define __sync_fetch_and_and(p, v) nv_rmw(p, NV_AND, v, true)
+#define __sync_fetch_and_xor(p, v) nv_rmw(p, NV_XOR, v, true)
+#define __sync_fetch_and_nand(p, v) nv_rmw(p, NV_NAND, v, true)
+#define __sync_val_compare_and_swap(p, o, n) nv_val_cas(p, o, n)
+#define __sync_bool_compare_and_swap(p, o, n) nv_bool_cas(p, o, n)
+#define __sync_lock_test_and_set(p, v) nv_rmw(p, NV_XCHG, v, true)
+#define __sync_lock_release(p) ((void)nv_rmw(p, NV_XCHG, 0, true))
+#define __atomic_add_fetch(p, v, mo) nv_rmw(p, NV_ADD, v, false)
+#define __atomic_sub_fetch(p, v, mo) nv_rmw(p, NV_SUB, v, false)
+#define __atomic_or_fetch(p, v, mo) nv_rmw(p, NV_OR, v, false)
+#define __atomic_and_fetch(p, v, mo) nv_rmw(p, NV_AND, v, false)
+#define __atomic_xor_fetch(p, v, mo) nv_rmw(p, NV_XOR, v, false)
+#define __atomic_fetch_add(p, v, mo) nv_rmw(p, NV_ADD, v, true)
+#define __atomic_fetch_sub(p, v, mo) nv_rmw(p, NV_SUB, v, true)
+#define __atomic_fetch_or(p, v, mo) nv_rmw(p, NV_OR, v, true)
+#define __atomic_fetch_and(p, v, mo) nv_rmw(p, NV_AND, v, true)
+#define __atomic_fetch_xor(p, v, mo) nv_rmw(p, NV_XOR, v, true)
+#define __atomic_exchange_n(p, v, mo) nv_rmw(p, NV_XCHG, v, true)
+#define __atomic_compare_exchange_n(p, e, d, weak, mo1, mo2) nv_atomic_cas(p, e, d)
 
 #define private public
 #define protected public
@@ -68,13 +122,6 @@ static int pidRec[MAXREC];
 static int badEvents;
 static __thread int curKind = -1;
 
-static const size_t SZ_VSTR = sizeof(Variant::Data) + sizeof(String);
-static const size_t SZ_VLIST = sizeof(Variant::Data) + sizeof(List<Variant>);
-static const size_t SZ_VARR = sizeof(Variant::Data) + sizeof(Array<Variant>);
-static const size_t SZ_VMAP = sizeof(Variant::Data) + sizeof(HashMap<String, Variant>);
-static const size_t SZ_XTEXT = sizeof(Xml::Variant::Data) + sizeof(String);
-static const size_t SZ_XELEM = sizeof(Xml::Variant::Data) + sizeof(Xml::Element);
-
 // counted objects: Node carries a handle to the next node (a handle embedded in a payload),
 // Leaf derives from Node so that Ptr<Node> = Ptr<Leaf> goes through the converting members
 struct Node : public RefCount::Object
@@ -90,15 +137,29 @@ struct Leaf : public Node
 };
 typedef Leaf Obj;
 
-static bool isPayloadAlloc(size_t size, bool array)
+// Which allocations are payloads is NOT decided by their size (sizes depend on capacity policy): a block is a
+// payload once a handle designates it (the `data` / `refObj` pointer read white-box at an observation) or
+// once an atomic operation hits it exactly at the offset of the reference counter of the class whose
+// call is running.  Everything else is an internal allocation; those only have to be gone at `end`.
+static size_t counterOffset(int kind)
 {
-  switch(curKind)
+  alignas(16) static char fake[sizeof(Leaf)];
+  switch(kind)
   {
-  case 0: return array;
-  case 1: return array && (size == SZ_VSTR || size == SZ_VLIST || size == SZ_VARR || size == SZ_VMAP);
-  case 2: return array && (size == SZ_XTEXT || size == SZ_XELEM);
-  case 3: return !array && size == sizeof(Obj);
-  default: return false;
+  case 0: return offsetof(String::Data, ref);
+  case 1: return offsetof(Variant::Data, ref);
+  case 2: return offsetof(Xml::Variant::Data, ref);
+  case 3: return (size_t)((char*)&static_cast<RefCount::Object*>((Leaf*)fake)->ref - fake);
+  default: return (size_t)-1;
+  }
+}
+
+static void markPayload(Rec* r, int kind)
+{
+  if(!r->payload)
+  {
+    r->payload = true;
+    r->kind = kind;
   }
 }
 
@@ -116,8 +177,9 @@ static void* ledgerAlloc(size_t size, bool array)
   r.addr = p;
   r.size = size;
   r.frees = 0;
-  r.payload = isPayloadAlloc(size, array);
-  r.kind = curKind;
+  (void)array;
+  r.payload = false;
+  r.kind = -1;
   r.pid = -1;
   return p;
 }
@@ -237,10 +299,12 @@ static void resetAll()
 // ---- observation -----------------------------------------------------------------------------------
 static int dangling;
 
-static void putBlockTok(const void* p)
+static void putBlockTok(const void* p, int kind)
 {
   Rec* r = findRec(p);
-  if(!r || r->addr != (const char*)p || !r->payload)
+  if(r && r->addr == (const char*)p)
+    markPayload(r, kind);
+  if(!r || r->addr != (const char*)p || r->kind != kind)
   {
     printf("X");        // pointer to something that is not a payload block
     ++dangling;
@@ -262,12 +326,12 @@ static void putPtrTok(RefCount::Object* refObj, Node* obj)
   else if((RefCount::Object*)obj != refObj)
   {
     // the handle counts one object and points to another one
-    if(refObj) putBlockTok(refObj); else printf("n");
+    if(refObj) putBlockTok(refObj, 3); else printf("n");
     printf("!");
-    if(obj) putBlockTok(obj); else printf("n");
+    if(obj) putBlockTok(obj, 3); else printf("n");
     ++dangling;
   }
-  else putBlockTok(refObj);
+  else putBlockTok(refObj, 3);
 }
 
 static void putHandles()
@@ -277,7 +341,7 @@ static void putHandles()
     String::Data* d = S[i]->data;
     if(d == &String::emptyData) printf("n");
     else if(d == &S[i]->_data) { printf("i0."); hxPutHex(d->str, d->len); }
-    else putBlockTok(d);
+    else putBlockTok(d, 0);
     printf(" ");
   }
   for(int i = 0; i < NV; ++i)
@@ -290,14 +354,14 @@ static void putHandles()
       printf("i%d.", d->type == Variant::intType ? 11 : 100 + (int)d->type);
       hxPutHex(&b, 1);
     }
-    else putBlockTok(d);
+    else putBlockTok(d, 1);
     printf(" ");
   }
   for(int i = 0; i < NV; ++i)
   {
     Xml::Variant::Data* d = X[i]->data;
     if(d == &Xml::Variant::nullData) printf("n");
-    else putBlockTok(d);
+    else putBlockTok(d, 2);
     printf(" ");
   }
   for(int i = 0; i < NV; ++i)
@@ -319,7 +383,9 @@ static void closePids()
     if(!n->next.refObj)
       continue;
     Rec* t = findRec(n->next.refObj);
-    if(t && t->addr == (char*)n->next.refObj && t->payload && t->pid < 0)
+    if(t && t->addr == (char*)n->next.refObj)
+      markPayload(t, 3);
+    if(t && t->addr == (char*)n->next.refObj && t->kind == 3 && t->pid < 0)
     {
       t->pid = npid;
       pidRec[npid++] = (int)(t - rec);
@@ -634,25 +700,85 @@ static void schedPoint()
 static bool isCounterOfPayload(const volatile void* p)
 {
   Rec* r = findRec(p);
-  return r && r->payload;
+  if(!r)
+    return false;
+  if(!r->payload && curKind >= 0 && (size_t)((const char*)p - r->addr) == counterOffset(curKind))
+    markPayload(r, curKind);
+  return r->payload;
 }
 
-static long nvAtomicAdd(volatile void* p, long delta, int width)
+static unsigned long long nvLoad(volatile void* p, int width)
 {
-  bool point = running && self > 0 && isCounterOfPayload(p);
-  if(point)
-    schedPoint();
-  long r = width == 8 ? (long)__atomic_add_fetch((volatile unsigned long*)p, (unsigned long)delta, __ATOMIC_SEQ_CST)
-                      : (long)__atomic_add_fetch((volatile unsigned int*)p, (unsigned int)delta, __ATOMIC_SEQ_CST);
-  if(point)
+  switch(width)
   {
-    traceTok("%d.%s.%ld", self, delta > 0 ? "inc" : "dec", r);
-    // descheduled again right after the atomic operation: the plain code that follows it
-    // (delete, stores, a re-read of the counter) is a step of its own
-    schedPoint();
-    traceTok("%d.go", self);
+  case 1: return *(volatile unsigned char*)p;
+  case 2: return *(volatile unsigned short*)p;
+  case 4: return *(volatile unsigned int*)p;
+  default: return *(volatile unsigned long long*)p;
   }
-  return r;
+}
+
+static void nvStore(volatile void* p, int width, unsigned long long v)
+{
+  switch(width)
+  {
+  case 1: *(volatile unsigned char*)p = (unsigned char)v; break;
+  case 2: *(volatile unsigned short*)p = (unsigned short)v; break;
+  case 4: *(volatile unsigned int*)p = (unsigned int)v; break;
+  default: *(volatile unsigned long long*)p = v; break;
+  }
+}
+
+// the observed step is canonical: whatever builtin spelled it, a counter that went up is `inc`, one that went
+// down is `dec`, each with the resulting value
+static void afterAtomic(bool point, int width, unsigned long long oldv, unsigned long long newv)
+{
+  if(!point)
+    return;
+  long long o = width == 4 ? (long long)(int)oldv : (long long)oldv, n = width == 4 ? (long long)(int)newv : (long long)newv;
+  traceTok("%d.%s.%lld", self, n > o ? "inc" : n < o ? "dec" : "same", n);
+  // descheduled again right after the atomic operation: the plain code that follows it
+  // (delete, stores, a re-read of the counter) is a step of its own
+  schedPoint();
+  traceTok("%d.go", self);
+}
+
+static unsigned long long nvRmw(volatile void* p, int width, int op, unsigned long long operand, bool returnOld)
+{
+  bool counter = isCounterOfPayload(p);
+  bool point = running && self > 0 && counter;
+  if(point)
+    schedPoint();
+  unsigned long long oldv = nvLoad(p, width), newv = oldv;
+  switch(op)
+  {
+  case NV_ADD: newv = oldv + operand; break;
+  case NV_SUB: newv = oldv - operand; break;
+  case NV_OR: newv = oldv | operand; break;
+  case NV_AND: newv = oldv & operand; break;
+  case NV_XOR: newv = oldv ^ operand; break;
+  case NV_NAND: newv = ~(oldv & operand); break;
+  case NV_XCHG: newv = operand; break;
+  }
+  nvStore(p, width, newv);
+  newv = nvLoad(p, width);
+  afterAtomic(point, width, oldv, newv);
+  return returnOld ? oldv : newv;
+}
+
+static unsigned long long nvCas(volatile void* p, int width, unsigned long long expected, unsigned long long desired, bool* ok)
+{
+  bool counter = isCounterOfPayload(p);
+  bool point = running && self > 0 && counter;
+  if(point)
+    schedPoint();
+  unsigned long long oldv = nvLoad(p, width);
+  unsigned long long mask = width >= 8 ? ~0ULL : ((1ULL << (8 * width)) - 1);
+  *ok = (oldv & mask) == (expected & mask);
+  if(*ok)
+    nvStore(p, width, desired);
+  afterAtomic(point, width, oldv, nvLoad(p, width));
+  return oldv;
 }
 
 #ifdef NSTD_VERIF_RC_HOOKS
@@ -741,8 +867,33 @@ int main(int argc, char** argv)
 {
   if(argc > 1 && !strcmp(argv[1], "--probe"))
   {
-    printf("hooks=%d vstr=%lu vlist=%lu varr=%lu vmap=%lu xtext=%lu xelem=%lu obj=%lu\n", haveHooks, (unsigned long)SZ_VSTR,
-      (unsigned long)SZ_VLIST, (unsigned long)SZ_VARR, (unsigned long)SZ_VMAP, (unsigned long)SZ_XTEXT, (unsigned long)SZ_XELEM, (unsigned long)sizeof(Obj));
+    printf("hooks=%d\n", haveHooks);
+    // the capacity policy of the four allocation sites of String data the calls go through, measured on the real
+    // class (the model takes these tables instead of mirroring the rounding rule): ctor(ptr,len), copy of
+    // unowned data, assignment of unowned data, detach(minCapacity)
+    static char buf[400];
+    memset(buf, 'x', sizeof(buf));
+    curKind = 0;
+    for(int site = 0; site < 4; ++site)
+    {
+      printf("cap%d", site);
+      for(usize len = 0; len <= 300; ++len)
+      {
+        usize cap = 0;
+        if(site == 0) { String a(buf, len); cap = a.capacity(); }
+        else if(site == 1) { String l; l.attach(buf, len); String c(l); cap = c.capacity(); }
+        else if(site == 2) { String l; l.attach(buf, len); String c; c = l; cap = c.capacity(); }
+        else { String e; e.reserve(len); cap = e.capacity(); }
+        printf(" %lu", (unsigned long)cap);
+      }
+      printf("\n");
+    }
+    curKind = -1;
+    for(int i = 0; i < nrec; ++i)
+    {
+      ASAN_UNPOISON_MEMORY_REGION(rec[i].addr, rec[i].size);
+      free(rec[i].addr);
+    }
     return 0;
   }
   HxLine l;
